@@ -66,3 +66,93 @@ Theorem C06_branch_context_invariant va vk l1 a b l2 :
   visitor_flags va vk (l1 ++ SIf a b :: l2) = visitor_flags va vk (l1 ++ a ++ b ++ l2).
 Proof. exact (branch_context_invariant va vk l1 a b l2). Qed.
 Print Assumptions C06_branch_context_invariant.
+
+(* ---- invariance under irrelevant variation: nested grammar (flags), and lifted to the DISCOVERED SIGNATURE at any position incl. inside branches (Proofs/InvarianceNested.v, WalkRel.v, InvarianceDiscover.v, InvarianceNestedDiscover.v) ---- *)
+From Sigtools.Model Require Import ExecNested.
+From Sigtools.Proofs Require Import InvarianceNested.
+Theorem C06_nested_unrelated_invariant : forall (va vk : N) (l1 l2 : list nstmt) (x : nstmt), va <> vk -> nblock_ok va vk (l1 ++ l2) = true -> nnames_ok va vk x = true -> unrelated_n x = true -> exists fm1 fm2 fd1 fd2 : list flags, visitor_flags_n va vk (l1 ++ l2) = Some ((fm1 ++ fm2) ++ fd1 ++ fd2) /\ visitor_flags_n va vk (l1 ++ x :: l2) = Some ((fm1 ++ repeat dflags (mcalls x) ++ fm2) ++ fd1 ++ repeat dflags (dcalls x) ++ fd2) /\ length fm1 = mcalls_block l1 /\ length fm2 = mcalls_block l2 /\ length fd1 = length (deferred l1) /\ length fd2 = length (deferred l2) /\ fst (absint_n (l1 ++ x :: l2) (true, true)) = fst (absint_n (l1 ++ l2) (true, true)).
+Proof. exact @InvarianceNested.nested_unrelated_invariant. Qed.
+Print Assumptions C06_nested_unrelated_invariant.
+
+Theorem C06_nested_insert_any : forall (va vk : N) (l1 l2 : list nstmt) (x : nstmt), va <> vk -> nblock_ok va vk (l1 ++ l2) = true -> nnames_ok va vk x = true -> transparent_n x = true -> exists (fm1 fm2 fd1 fd2 : list flags) (kF : bool * bool), visitor_flags_n va vk (l1 ++ l2) = Some ((fm1 ++ fm2) ++ fd1 ++ fd2) /\ visitor_flags_n va vk (l1 ++ x :: l2) = Some ((fm1 ++ repeat dflags (mcalls x) ++ fm2) ++ fd1 ++ map (nflags kF) (deferred1 x) ++ fd2) /\ length fm1 = mcalls_block l1 /\ length fm2 = mcalls_block l2 /\ length fd1 = length (deferred l1) /\ length fd2 = length (deferred l2) /\ fst (absint_n (l1 ++ l2) (true, true)) = kF /\ fst (absint_n (l1 ++ x :: l2) (true, true)) = kF.
+Proof. exact @InvarianceNested.nested_insert_any. Qed.
+Print Assumptions C06_nested_insert_any.
+
+Theorem C06_move_to_lambda_gen : forall (va vk : N) (l1 l2 : list nstmt) (c : N) (n : nat) (kw : list N) (pa pk : bool), va <> vk -> nblock_ok va vk (l1 ++ l2) = true -> name_ok va vk c = true -> exists (fm1 fm2 fd1 fd2 : list flags) (k1 kF : bool * bool), visitor_flags_n va vk (l1 ++ NLeaf (SFwd c n kw pa pk) :: l2) = Some ((fm1 ++ nflags k1 (NCFwd c n kw pa pk) :: fm2) ++ fd1 ++ fd2) /\ visitor_flags_n va vk (l1 ++ NLam (NCFwd c n kw pa pk) :: l2) = Some ((fm1 ++ dflags :: fm2) ++ fd1 ++ nflags kF (NCFwd c n kw pa pk) :: fd2) /\ length fm1 = mcalls_block l1 /\ length fm2 = mcalls_block l2 /\ length fd1 = length (deferred l1) /\ length fd2 = length (deferred l2) /\ k1 = fst (absint_n l1 (true, true)) /\ kF = fst (absint_n l2 k1) /\ fst (absint_n (l1 ++ NLeaf (SFwd c n kw pa pk) :: l2) (true, true)) = kF /\ fst (absint_n (l1 ++ NLam (NCFwd c n kw pa pk) :: l2) (true, true)) = kF.
+Proof. exact @InvarianceNested.move_to_lambda_gen. Qed.
+Print Assumptions C06_move_to_lambda_gen.
+
+Theorem C06_move_to_lambda_invariant : forall (va vk : N) (l1 l2 : list nstmt) (c : N) (n : nat) (kw : list N) (pa pk : bool), va <> vk -> nblock_ok va vk (l1 ++ l2) = true -> name_ok va vk c = true -> fst (absint_n (l1 ++ l2) (true, true)) = (true, true) -> exists fm1 fm2 fd1 fd2 : list (bool * bool * bool * bool), visitor_flags_n va vk (l1 ++ NLeaf (SFwd c n kw pa pk) :: l2) = Some ((fm1 ++ (pa, pk, false, false) :: fm2) ++ fd1 ++ fd2) /\ visitor_flags_n va vk (l1 ++ NLam (NCFwd c n kw pa pk) :: l2) = Some ((fm1 ++ dflags :: fm2) ++ fd1 ++ (pa, pk, false, false) :: fd2) /\ length fm1 = mcalls_block l1 /\ length fm2 = mcalls_block l2 /\ length fd1 = length (deferred l1) /\ length fd2 = length (deferred l2) /\ Permutation.Permutation (dflags :: (fm1 ++ (pa, pk, false, false) :: fm2) ++ fd1 ++ fd2) ((fm1 ++ dflags :: fm2) ++ fd1 ++ (pa, pk, false, false) :: fd2).
+Proof. exact @InvarianceNested.move_to_lambda_invariant. Qed.
+Print Assumptions C06_move_to_lambda_invariant.
+
+Theorem C06_move_to_lambda_unrestricted_refuted : exists (va vk : N) (l1 l2 : list nstmt) (c : N) (n : nat) (kw : list N) (pa pk : bool) (f1 f2 : list flags), va <> vk /\ nblock_ok va vk (l1 ++ l2) = true /\ name_ok va vk c = true /\ visitor_flags_n va vk (l1 ++ NLeaf (SFwd c n kw pa pk) :: l2) = Some f1 /\ visitor_flags_n va vk (l1 ++ NLam (NCFwd c n kw pa pk) :: l2) = Some f2 /\ In (true, true, false, false) f1 /\ ~ In (true, true, false, false) f2.
+Proof. exact @InvarianceNested.move_to_lambda_unrestricted_refuted. Qed.
+Print Assumptions C06_move_to_lambda_unrestricted_refuted.
+
+From Sigtools.Proofs Require Import InvarianceDiscover.
+Theorem C06_walker_records_insert_neutral : forall va vk : N, va <> vk -> forall (l1 : list stmt) (x : stmt) (l2 : list stmt), block_ok va vk (l1 ++ l2) = true -> names_ok va vk x = true -> neutral x = true -> exists (r1 r2 : list callrec) (c : callrec), visit_function [] [] (Some va) (Some vk) (compile_block va vk (l1 ++ l2)) = Some (r1 ++ r2) /\ visit_function [] [] (Some va) (Some vk) (compile_block va vk (l1 ++ x :: l2)) = Some (r1 ++ c :: r2) /\ fl c = dflags /\ length r1 = ncalls_block l1.
+Proof. exact @InvarianceDiscover.walker_records_insert_neutral. Qed.
+Print Assumptions C06_walker_records_insert_neutral.
+
+Theorem C06_discover_neutral_anywhere : forall va vk : N, va <> vk -> forall (res : callrec -> resolved) (own plain : sigT) (have_ast : bool) (c : bctx) (ins : list stmt), block_ok va vk (plug c []) = true -> block_ok va vk ins = true -> forallb neutral ins = true -> discovered va vk res own plain have_ast (plug c ins) = discovered va vk res own plain have_ast (plug c []).
+Proof. exact @InvarianceDiscover.discover_neutral_anywhere. Qed.
+Print Assumptions C06_discover_neutral_anywhere.
+
+Theorem C06_discover_unrelated_call_anywhere : forall va vk : N, va <> vk -> forall (res : callrec -> resolved) (own plain : sigT) (have_ast : bool) (c : bctx) (f : N), block_ok va vk (plug c []) = true -> names_ok va vk (SOther f) = true -> discovered va vk res own plain have_ast (plug c [SOther f]) = discovered va vk res own plain have_ast (plug c []).
+Proof. exact @InvarianceDiscover.discover_unrelated_call_anywhere. Qed.
+Print Assumptions C06_discover_unrelated_call_anywhere.
+
+Theorem C06_discover_pass_args_anywhere : forall va vk : N, va <> vk -> forall (res : callrec -> resolved) (own plain : sigT) (have_ast : bool) (c : bctx) (f : N), block_ok va vk (plug c []) = true -> names_ok va vk (SPass f SA) = true -> discovered va vk res own plain have_ast (plug c [SPass f SA]) = discovered va vk res own plain have_ast (plug c []).
+Proof. exact @InvarianceDiscover.discover_pass_args_anywhere. Qed.
+Print Assumptions C06_discover_pass_args_anywhere.
+
+Theorem C06_walker_branch_anywhere : forall va vk : N, va <> vk -> forall (c : bctx) (a b : list stmt), block_ok va vk (plug c (a ++ b)) = true -> visit_function [] [] (Some va) (Some vk) (compile_block va vk (plug c [SIf a b])) = visit_function [] [] (Some va) (Some vk) (compile_block va vk (plug c (a ++ b))).
+Proof. exact @InvarianceDiscover.walker_branch_anywhere. Qed.
+Print Assumptions C06_walker_branch_anywhere.
+
+Theorem C06_discover_branch_anywhere : forall va vk : N, va <> vk -> forall (res : callrec -> resolved) (own plain : sigT) (have_ast : bool) (c : bctx) (a b : list stmt), block_ok va vk (plug c (a ++ b)) = true -> discovered va vk res own plain have_ast (plug c [SIf a b]) = discovered va vk res own plain have_ast (plug c (a ++ b)).
+Proof. exact @InvarianceDiscover.discover_branch_anywhere. Qed.
+Print Assumptions C06_discover_branch_anywhere.
+
+Theorem C06_discover_branch_neutral_arm_anywhere : forall va vk : N, va <> vk -> forall (res : callrec -> resolved) (own plain : sigT) (have_ast : bool) (c : bctx) (a b : list stmt), block_ok va vk (plug c a) = true -> block_ok va vk b = true -> forallb neutral b = true -> discovered va vk res own plain have_ast (plug c [SIf a b]) = discovered va vk res own plain have_ast (plug c a) /\ discovered va vk res own plain have_ast (plug c [SIf b a]) = discovered va vk res own plain have_ast (plug c a).
+Proof. exact @InvarianceDiscover.discover_branch_neutral_arm_anywhere. Qed.
+Print Assumptions C06_discover_branch_neutral_arm_anywhere.
+
+Theorem C06_discover_neutral_env : forall (va vk : N) (c : bctx) (ins : list stmt) (env : N -> sigT) (own plain : sigT) (have_ast : bool) (recs recs' : list callrec), va <> vk -> block_ok va vk (plug c []) = true -> block_ok va vk ins = true -> forallb neutral ins = true -> visit_function [] [] (Some va) (Some vk) (compile_block va vk (plug c [])) = Some recs -> visit_function [] [] (Some va) (Some vk) (compile_block va vk (plug c ins)) = Some recs' -> discover own plain have_ast (DiscoverSound.calls_of env recs') = discover own plain have_ast (DiscoverSound.calls_of env recs).
+Proof. exact @InvarianceDiscover.C06_discover_neutral_env. Qed.
+Print Assumptions C06_discover_neutral_env.
+
+Theorem C06_discover_branch_env : forall (va vk : N) (c : bctx) (a b : list stmt) (env : N -> sigT) (own plain : sigT) (have_ast : bool) (recs recs' : list callrec), va <> vk -> block_ok va vk (plug c (a ++ b)) = true -> visit_function [] [] (Some va) (Some vk) (compile_block va vk (plug c (a ++ b))) = Some recs -> visit_function [] [] (Some va) (Some vk) (compile_block va vk (plug c [SIf a b])) = Some recs' -> recs' = recs /\ discover own plain have_ast (DiscoverSound.calls_of env recs') = discover own plain have_ast (DiscoverSound.calls_of env recs).
+Proof. exact @InvarianceDiscover.C06_discover_branch_env. Qed.
+Print Assumptions C06_discover_branch_env.
+
+Theorem C06_discover_pass_kwargs_refuted : exists (va vk : N) (l1 l2 : list stmt) (f : N) (env : N -> sigT), va <> vk /\ block_ok va vk (l1 ++ l2) = true /\ names_ok va vk (SPass f SK) = true /\ (forall x : N, valid_sig (params (env x)) = true) /\ discovered va vk (DiscoverSound.resolve env) (DiscoverSound.own_sig va vk) plain0 true (l1 ++ SPass f SK :: l2) <> discovered va vk (DiscoverSound.resolve env) (DiscoverSound.own_sig va vk) plain0 true (l1 ++ l2).
+Proof. exact @InvarianceDiscover.discover_pass_kwargs_refuted. Qed.
+Print Assumptions C06_discover_pass_kwargs_refuted.
+
+Theorem C06_discover_alias_refuted : exists (va vk : N) (l1 l2 : list stmt) (y : N) (env : N -> sigT), va <> vk /\ block_ok va vk (l1 ++ l2) = true /\ names_ok va vk (SAlias y SA) = true /\ (forall x : N, valid_sig (params (env x)) = true) /\ visitor_flags va vk (l1 ++ SAlias y SA :: l2) = visitor_flags va vk (l1 ++ l2) /\ discovered va vk (DiscoverSound.resolve env) (DiscoverSound.own_sig va vk) plain0 true (l1 ++ SAlias y SA :: l2) <> discovered va vk (DiscoverSound.resolve env) (DiscoverSound.own_sig va vk) plain0 true (l1 ++ l2).
+Proof. exact @InvarianceDiscover.discover_alias_refuted. Qed.
+Print Assumptions C06_discover_alias_refuted.
+
+From Sigtools.Proofs Require Import InvarianceNestedDiscover.
+Theorem C06_walker_records_nested : forall va vk : N, va <> vk -> forall l : list nstmt, nblock_ok va vk l = true -> exists (nmF : list (N * marker)) (imF : list N) (tnF : list nat) (csF : list callrec), VisitorTotal.walk_list (mains va vk l) (InvarianceDiscover.st0 va vk) = mst va vk nmF imF csF tnF 2 false /\ Good va vk nmF imF tnF (fst (absint_n l (true, true))) /\ visit_function [] [] (Some va) (Some vk) (compile_nblock va vk l) = Some (csF ++ map (drec va vk nmF tnF) (deferred l)).
+Proof. exact @InvarianceNestedDiscover.walker_records_nested. Qed.
+Print Assumptions C06_walker_records_nested.
+
+Theorem C06_walker_records_nested_unrelated : forall va vk : N, va <> vk -> forall (l1 l2 : list nstmt) (x : nstmt), nblock_ok va vk (l1 ++ l2) = true -> nnames_ok va vk x = true -> unrelated_d x = true -> exists rm1 rm2 rd1 rd2 cx dx : list callrec, visit_function [] [] (Some va) (Some vk) (compile_nblock va vk (l1 ++ l2)) = Some ((rm1 ++ rm2) ++ rd1 ++ rd2) /\ visit_function [] [] (Some va) (Some vk) (compile_nblock va vk (l1 ++ x :: l2)) = Some ((rm1 ++ cx ++ rm2) ++ rd1 ++ dx ++ rd2) /\ Forall (fun c : callrec => fl c = dflags) cx /\ Forall (fun c : callrec => fl c = dflags) dx /\ length cx = mcalls x /\ length dx = dcalls x /\ length rd1 = length (deferred l1) /\ length rd2 = length (deferred l2).
+Proof. exact @InvarianceNestedDiscover.walker_records_nested_unrelated. Qed.
+Print Assumptions C06_walker_records_nested_unrelated.
+
+Theorem C06_discover_nested_unrelated : forall (va vk : N) (res : callrec -> resolved) (own plain : sigT) (have_ast : bool) (l1 l2 : list nstmt) (x : nstmt), va <> vk -> nblock_ok va vk (l1 ++ l2) = true -> nnames_ok va vk x = true -> unrelated_d x = true -> discovered_n va vk res own plain have_ast (l1 ++ x :: l2) = discovered_n va vk res own plain have_ast (l1 ++ l2).
+Proof. exact @InvarianceNestedDiscover.discover_nested_unrelated. Qed.
+Print Assumptions C06_discover_nested_unrelated.
+
+Theorem C06_discover_nested_unrelated_env : forall (va vk : N) (env : N -> sigT) (own plain : sigT) (have_ast : bool) (l1 l2 : list nstmt) (x : nstmt) (recs recs' : list callrec), va <> vk -> nblock_ok va vk (l1 ++ l2) = true -> nnames_ok va vk x = true -> unrelated_d x = true -> visit_function [] [] (Some va) (Some vk) (compile_nblock va vk (l1 ++ l2)) = Some recs -> visit_function [] [] (Some va) (Some vk) (compile_nblock va vk (l1 ++ x :: l2)) = Some recs' -> discover own plain have_ast (DiscoverSound.calls_of env recs') = discover own plain have_ast (DiscoverSound.calls_of env recs).
+Proof. exact @InvarianceNestedDiscover.C06_discover_nested_unrelated_env. Qed.
+Print Assumptions C06_discover_nested_unrelated_env.
+
+Theorem C06_move_to_lambda_discover_refuted : exists (va vk : N) (l1 l2 : list nstmt) (c : N) (n : nat) (kw : list N) (pa pk : bool) (env : N -> sigT), va <> vk /\ nblock_ok va vk (l1 ++ l2) = true /\ name_ok va vk c = true /\ fst (absint_n (l1 ++ l2) (true, true)) = (true, true) /\ (forall x : N, valid_sig (params (env x)) = true) /\ discovered_n va vk (DiscoverSound.resolve env) (DiscoverSound.own_sig va vk) InvarianceDiscover.plain0 true (l1 ++ NLam (NCFwd c n kw pa pk) :: l2) <> discovered_n va vk (DiscoverSound.resolve env) (DiscoverSound.own_sig va vk) InvarianceDiscover.plain0 true (l1 ++ NLeaf (SFwd c n kw pa pk) :: l2).
+Proof. exact @InvarianceNestedDiscover.move_to_lambda_discover_refuted. Qed.
+Print Assumptions C06_move_to_lambda_discover_refuted.
+
